@@ -31,7 +31,7 @@ WRAP = ["msg_queue_insert", "msg_queue_extract", "msg_queue_time_peek", "fossil_
         "termination_on_gvt", "termination_on_lp_rollback", "termination_on_msg_process",
         "model_allocator_checkpoint_take", "model_allocator_checkpoint_restore", "model_allocator_fossil_lp_collect",
         "process_lp_init", "process_lp_fini", "lp_init", "lp_fini", "stats_take", "stats_on_gvt", "gvt_phase_run",
-        "sync_thread_barrier", "msg_allocator_free_at_gvt"]
+        "sync_thread_barrier", "msg_allocator_free_at_gvt", "msg_queue_fini"]
 
 HARNESS_SRCS = ["sched.c", "main.c", "model.c", "tw.c", "units.c", "ranks_gen.c"]
 
@@ -49,7 +49,7 @@ VARIANTS = {
 def sh(cmd, **kw):
     r = subprocess.run(cmd, stdout=subprocess.PIPE, stderr=subprocess.STDOUT, text=True, **kw)
     if r.returncode:
-        raise RuntimeError("command failed: %s\n%s" % (" ".join(cmd), r.stdout))
+        raise RuntimeError("command failed: %s\n%s" % (" ".join(cmd)[-300:], r.stdout[-3000:]))
     return r.stdout
 
 
